@@ -14,6 +14,7 @@ import time
 HERE = os.path.dirname(os.path.abspath(__file__))
 VERIF = os.path.dirname(HERE)
 LEAN = os.path.join(VERIF, "lean")
+OUT = os.environ.get("VERIF_OUT", VERIF)  # evidence/replays root (mutant self-tests write elsewhere)
 sys.path.insert(0, HERE)
 
 ALLOWED_AXIOMS = {"propext", "Classical.choice", "Quot.sound"}
@@ -182,10 +183,10 @@ def load_findings(prop):
 
 
 def write_replay(prop, payload):
-    os.makedirs(os.path.join(VERIF, "replays"), exist_ok=True)
+    os.makedirs(os.path.join(OUT, "replays"), exist_ok=True)
     h = hashlib.blake2b(json.dumps(payload, sort_keys=True, default=str).encode(), digest_size=5).hexdigest()
     path = os.path.join("replays", "%s-%s.json" % (prop, h))
-    with open(os.path.join(VERIF, path), "w") as f:
+    with open(os.path.join(OUT, path), "w") as f:
         json.dump(payload, f, indent=1, default=str)
     return path
 
@@ -324,8 +325,8 @@ def main():
         "wall_s": round(wall, 2),
         "violations": violations,
     }
-    os.makedirs(os.path.join(VERIF, "evidence"), exist_ok=True)
-    with open(os.path.join(VERIF, "evidence", prop + ".json"), "w") as f:
+    os.makedirs(os.path.join(OUT, "evidence"), exist_ok=True)
+    with open(os.path.join(OUT, "evidence", prop + ".json"), "w") as f:
         json.dump(ev, f, indent=1, default=str)
     print("%s tier=%s seed=%d obligations=%d/%d cases=%d distinct=%d traces=%d disagreements=%d oracle_failures=%d (uncovered %d) unsupported=%d wall=%.1fs"
           % (prop, tier, seed, n_dis, n_obl, ctx.evaluations, len(ctx.distinct), ctx.traces,
